@@ -206,6 +206,9 @@ AlignDelta(gs, k) ==
   IF MainIdx(a) >= 0 /\ MainIdx(b) >= 0 /\ ParentOf(a) = ParentOf(b) THEN MainIdx(a) - MainIdx(b) ELSE 0
 Composed(gs) ==
   {[i \in DOMAIN gs |-> IF i = k THEN ShiftGroup(DropContext(gs[i]), delta) ELSE DropContext(gs[i])] : k \in DOMAIN gs, delta \in {-1, 1}}
+  \* one group loses its context tests and moves; the others keep theirs
+  \cup {[i \in DOMAIN gs |-> IF i = k THEN ShiftGroup(DropContext(gs[i]), delta) ELSE gs[i]] : k \in DOMAIN gs, delta \in {-1, 1}}
+  \cup {[i \in DOMAIN gs |-> IF i = k THEN ShiftGroup(DropContext(gs[i]), AlignDelta(gs, k)) ELSE gs[i]] : k \in (DOMAIN gs) \ {1}}
   \cup {[i \in DOMAIN gs |-> IF i = k THEN ShiftGroup(DropContext(gs[i]), AlignDelta(gs, k)) ELSE DropContext(gs[i])] : k \in (DOMAIN gs) \ {1}}
 
 Variations(gs, x) ==
